@@ -328,7 +328,10 @@ func MixDoc(kind int, tag string, i int) Doc {
 	case 0: // bare _id
 		return Doc{id}
 	case 1: // 1-hit candidate in a, shared term in b (doc values)
-		return Doc{id, fld("a", Term{T: fmt.Sprintf("u%s%d", tag, i), Freq: 1}), fld("b", Term{T: "x", Freq: 1})}
+		// b: "x" is shared with kinds 4 and 7, "y" with kinds 2 and 10 - in kind 2 (and 7 for "x")
+		// the same term carries locations, here it does not (a 1-hit candidate after a merge that
+		// meets postings WITH locations in another input)
+		return Doc{id, fld("a", Term{T: fmt.Sprintf("u%s%d", tag, i), Freq: 1}), fld("b", Term{T: "x", Freq: 1}, Term{T: "y", Freq: 1})}
 	case 2: // locations, stored
 		return Doc{id, stored(fld("a", vary(TermKind("x", KF2L1, ""), i), TermKind("y", KF1, "")), "hello"), fld("b", vary(TermKind("y", KF2L1, ""), i))}
 	case 3: // repeated field a + stored twice
@@ -354,6 +357,19 @@ func MixDoc(kind int, tag string, i int) Doc {
 			big[j] = byte('a' + j%7)
 		}
 		return Doc{id, stored(fld("a", Term{T: "x", Freq: 5, Locs: []Loc{{P: 1, S: 1, E: 2}}}, TermKind("y", KF1, "")), string(big))}
+	case 12, 13, 14, 15, 16: // TERM payload kinds: one term a:"x" as absent / f1 / f1+loc / f2+loc / f300+2 locs, next to a:"other"
+		ts := []Term{{T: "other", Freq: 1}}
+		switch kind {
+		case 13:
+			ts = append(ts, Term{T: "x", Freq: 1})
+		case 14:
+			ts = append(ts, Term{T: "x", Freq: 1, Locs: []Loc{{P: 1 + i, S: 125, E: 130}}})
+		case 15:
+			ts = append(ts, Term{T: "x", Freq: 2, Locs: []Loc{{P: 2 + i, S: 3, E: 4}}})
+		case 16:
+			ts = append(ts, TermKind("x", KF300L2, ""))
+		}
+		return Doc{id, fld("a", ts...)}
 	}
 	panic("mix kind")
 }
@@ -436,7 +452,10 @@ func Large(n, pattern, payload int) []Doc {
 // locations+stored, composite, a field only some segments have, ...).
 // The first three have pairwise different field lists of which one is a prefix of the others
 // ([_id a b] with stored a, [_id a z] with stored a and z, [_id]); the fourth adds 1-hit candidates.
-var MergeKinds = []int{2, 6, 0, 1, 4, 3, 5, 7, 8, 9, 10, 11}
+var MergeKinds = []int{2, 6, 0, 1, 4, 3, 5, 7, 8, 9, 10, 11, 12, 13, 14, 15, 16}
+
+// TermKindBase: index in MergeKinds of the first TERM payload kind (5 kinds).
+const TermKindBase = 12
 
 // SegSpec is one input segment of a merge case: the kinds of its documents and its deletions.
 type SegSpec struct {
